@@ -15,7 +15,7 @@ def _reg(mod):
 
 
 _reg(rules_k)
-for _m in ("rules_t", "rules_d", "rules_m", "rules_s", "rules_p", "rules_a", "rules_a1", "rules_o", "rules_e", "rules_x"):
+for _m in ("rules_t", "rules_d", "rules_m", "rules_s", "rules_p", "rules_a", "rules_a1", "rules_o", "rules_e", "rules_x", "rules_y"):
     try:
         _mod = __import__(f"gbsa.{_m}", fromlist=["*"])
     except ImportError:
@@ -32,7 +32,7 @@ TRUST_COMMON = [
 # not_decided (clauses of the property out of reach of this family), technique.
 _ALL = {
     "C01": dict(
-        want=["T1", "T3", "D1", "D2", "D6", "D6b", "M1", "M2", "P2", "P3", "K1@reduce", "K4@reduce", "K2", "M6"],
+        want=["T1", "T3", "D1", "D2", "D6", "D6b", "M1", "M2", "P2", "P3", "K1@reduce", "K4@reduce", "K2", "M6", "M8", "M5"],
         explanation=("Static analysis of /repo's source. Decides: every row reducer (ScalarFuncs) normalised to a decision "
                      "table over NULL/NZ/ORD atoms equals the hand-written specification of the operation it is dispatched as "
                      "(size, count, sum, mean=sum/count, min, max, first, last); op->kernel->reducer dispatch by constant "
@@ -44,7 +44,7 @@ _ALL = {
         technique="GCNF decision tables vs spec tables; constant-propagated dispatch; fact-walker dominance; path rules",
     ),
     "C02": dict(
-        want=["K1@factorize", "K2", "K6@factorize", "F1", "P7", "K4b", "P7b"],
+        want=["K1@factorize", "K2", "K6@factorize", "F1", "P7", "K4b", "P7b", "F1b"],
         explanation=("Decides the structural part of faithful factorization: the null code -1 is produced for a null in ANY key "
                      "position and preserved by every code re-mapping (K2); every factorization route tests the key for null "
                      "before an ordering comparison decides its code or delegates to a library call documented to emit the "
@@ -79,7 +79,7 @@ _ALL = {
         technique="GCNF decision tables + algebraic laws on tables; dispatch folding; call-site rules",
     ),
     "C05": dict(
-        want=["K3", "A3m", "M4", "M5", "P3", "D9", "M6", "E3"],
+        want=["K3", "A3m", "M4", "M5", "P3", "D9", "M6", "E3", "M7", "M8"],
         explanation=("Decides masked-row non-interference: in every kernel with a mask parameter, every store to per-group "
                      "state on a path where the row is not provably selected is an identity (K3, path enumeration with a "
                      "symbolic store); the mask is forwarded at every delegation that has one (A3m); slice masks are applied "
@@ -117,7 +117,7 @@ _ALL = {
         technique="GCNF tables; loop-body obligations; path pairing rule",
     ),
     "C09": dict(
-        want=["K1@rolling", "K3@rolling", "K4@rolling", "K5", "D3", "P10"],
+        want=["K1@rolling", "K3@rolling", "K4@rolling", "K5", "D3", "P10", "P11b", "D3b"],
         explanation=("Decides the periphery of the rolling kernels, not the window arithmetic: null/mask guards (K1, K3); "
                      "counter width (K4); dtype provenance on selection paths so min/max/shift return input elements exactly "
                      "(K5); op -> kernel/flag dispatch and flag -> orientation (D3); restoration keeps the input's time unit (P10)."),
@@ -126,7 +126,7 @@ _ALL = {
         technique="fact walker, path enumeration, dtype-provenance classification, dispatch folding",
     ),
     "C10": dict(
-        want=["K1@ema", "E1", "E2", "E3", "A2", "K3@ema"],
+        want=["K1@ema", "E1", "E2", "E3", "A2", "K3@ema", "M7", "E4"],
         explanation=("Decides the periphery of the EMA, not the closed form: null-key guard in the grouped kernels (K1); "
                      "invalid rows read the group's own carried value (E2); the halflife->alpha conversion is the same "
                      "function of the raw parameter in both entry points (E1); the alignment decorator names real "
@@ -135,7 +135,7 @@ _ALL = {
         technique="fact walker; expression normal-form comparison; decorator-name rule",
     ),
     "C11": dict(
-        want=["P4", "P9", "P7b"],
+        want=["P4", "P9", "P7b", "P11b", "P13", "M5"],
         explanation=("Decides two structural necessary conditions: the sort permutation derived from the labels reaches the "
                      "result and count frames on every non-transform path (P4); key names are assigned on every constructing "
                      "path (P9)."),
@@ -143,7 +143,7 @@ _ALL = {
         technique="path rules over _apply_gb_reduction / __init__",
     ),
     "C12": dict(
-        want=["P1", "T2", "T3", "K5", "P10", "K4b", "P12"],
+        want=["P1", "T2", "T3", "K5", "P10", "K4b", "P12", "F1b", "P7b", "M7"],
         explanation=("Decides the dtype/exactness clauses: temporal cast<->restore pairing on all paths (P1); selection "
                      "reducers never do arithmetic on values (T2-L4); accumulator dtype table (T3); dtype provenance in "
                      "rolling selection paths (K5); unit-preserving restoration (P10)."),
@@ -151,7 +151,7 @@ _ALL = {
         technique="path pairing; table laws; dtype provenance",
     ),
     "C13": dict(
-        want=["S1", "S2", "S3", "S4", "K2"],
+        want=["S1", "S2", "S3", "S4", "K2", "M8", "S3b"],
         explanation=("Decides history independence structurally: finite typestate interpretation of the key-representation "
                      "mutator from every state (S1); every consumer of global codes sees global codes (S2); every attribute "
                      "read by a method is initialised on every constructor path (S3); logical attributes are assigned only "
@@ -160,7 +160,7 @@ _ALL = {
         technique="finite abstract interpretation (typestate), definite-assignment, mutation containment",
     ),
     "C14": dict(
-        want=["A8", "P2", "T3", "A3x"],
+        want=["A8", "P2", "T3", "A3x", "P14", "P15", "P16"],
         explanation=("Decides the periphery of margins: imports on the margin path resolve in the pinned environment (A8); "
                      "margins are applied to sums and counts before the division (P2); margin aggregator table (T3); crosstab "
                      "forwards mask/margins/aggfunc (A3x)."),
